@@ -182,6 +182,29 @@ def extract_tables(repo):
                 if not good:
                     dc.append('%s: fn %s(%s) -> %s in impl%s %s' % (f_, n, f[2], f[3], hdr[0], hdr[1][:80]))
     fact('collection_finalisers_tied_to_scope', okc, '; '.join(dc) or 'all into_* return the lifetime of their allocator bound')
+    # conversions between owned parts and collections (from_parts / into_parts / from_init / from_uninit / into_* ...):
+    # every arena-pointing type in the signature carries the lifetime of the impl block, never an elided or fresh one
+    okp, dp = True, []
+    for f_ in ('src/bump_vec.rs', 'src/bump_string.rs', 'src/mut_bump_vec.rs', 'src/mut_bump_string.rs', 'src/mut_bump_vec_rev.rs',
+               'src/fixed_bump_vec.rs', 'src/fixed_bump_string.rs'):
+        tx = rd(f_)
+        for (name, recv, params, ret, pos) in fns(tx):
+            if not re.match(r'(from_parts|into_parts|from_init|from_uninit|into_vec|into_string|into_fixed_vec|into_fixed_string|into_boxed_slice|into_boxed_str)$', name):
+                continue
+            pre = tx[max(0, pos - 30):pos]
+            if re.search(r'unsafe\s*$', pre):
+                continue
+            hdr = impl_at(tx, pos)
+            m = re.search(r"'(\w+)", hdr[0]) or re.search(r"'(\w+)", hdr[1])
+            if not m:
+                continue
+            lt = m.group(1)
+            sig = params + ' -> ' + ret
+            for ty in re.findall(r"(?:FixedBumpVec|FixedBumpString|BumpBox)<\s*('\w+)?", sig):
+                if ty != "'" + lt:
+                    okp = False
+                    dp.append('%s: fn %s(%s) -> %s  (impl lifetime %s)' % (f_, name, params, ret, lt))
+    fact('conversions_keep_the_lifetime_of_their_parts', okp, '; '.join(dp[:3]) or 'from_parts / into_parts / from_init / from_uninit / into_* carry the impl lifetime')
 
     # (4) Send / Sync
     snd = re.findall(r"unsafe\s+impl\s*<([^>]*)>\s*(Send|Sync)\s+for\s+(Bump|BumpScope|BumpPool|BumpPoolGuard|BumpScopeGuard|BumpClaimGuard)\b[^{]*?(where[^{]*)?\{", tb + ts + tp + tg + tc, re.S)
@@ -246,7 +269,7 @@ def tables_v(facts, det, conv, uses):
     L.append('   | PGuardScope => tied (guard_scope_mut_and_borrowed && scope_methods_tied_to_scope)')
     L.append('   | PPoolGuard => tied (pool_guard_scope_is_pool_borrow && scope_methods_tied_to_scope)')
     L.append('   | PClaim => tied (claim_guard_scope_is_original_scope && scope_methods_tied_to_scope)')
-    L.append('   | PCollection => tied collection_finalisers_tied_to_scope')
+    L.append('   | PCollection => tied (collection_finalisers_tied_to_scope && conversions_keep_the_lifetime_of_their_parts)')
     L.append('   end)')
     L.append('  (fun w => match w with')
     L.append('   | WReset => mutr bump_reset_mut')
@@ -409,6 +432,18 @@ def corpus():
             [('Enter',), ('Alloc', 0, 'PTraitScope' if 'without' not in hn else 'PTraitWrapped'), ('Exit',), ('Use', 0)], 'escape', extra=gen)
         add(f'trait.{hn}.control', f'    let mut bump: Bump = Bump::new();\n    bump.scoped(|scope| {{ let x = {call}; consume(&x); }});',
             [('Enter',), ('Alloc', 0, 'PTraitScope' if 'without' not in hn else 'PTraitWrapped'), ('Use', 0), ('Exit',)], 'control', extra=gen)
+    # ---- conversions: a collection assembled from parts must not outlive the scope the parts live in
+    conv = [('vec_from_parts', 'let f = FixedBumpVec::<u32>::with_capacity_in(4, &*scope); BumpVec::from_parts(f, @O@)'),
+            ('string_from_parts', 'let f = bump_scope::FixedBumpString::with_capacity_in(4, &*scope); BumpString::from_parts(f, @O@)'),
+            ('fixed_from_init', 'FixedBumpVec::from_init(scope.alloc_slice_copy(&[1u32, 2]))'),
+            ('fixed_from_uninit', 'FixedBumpVec::from_uninit(scope.alloc_uninit_slice::<u32>(3))'),
+            ('vec_into_parts', 'let mut v = BumpVec::<u32, _>::new_in(&*scope); v.push(1); v.into_parts().0'),
+            ('fixed_into_vec', 'let f = FixedBumpVec::<u32>::with_capacity_in(4, &*scope); f.into_vec(@O@)')]
+    for (cn, body) in conv:
+        add(f'conv.{cn}.return.escape', '    let mut bump: Bump = Bump::new();\n    let other: Bump = Bump::new();\n    let x = bump.scoped(|scope| { ' + body.replace('@O@', '&other') + ' });\n    consume(&x);',
+            [('Enter',), ('Alloc', 0, 'PCollection'), ('Exit',), ('Use', 0)], 'escape')
+        add(f'conv.{cn}.control', '    let mut bump: Bump = Bump::new();\n    let other: Bump = Bump::new();\n    bump.scoped(|scope| { let x = { ' + body.replace('@O@', '&*scope') + ' }; consume(&x); });',
+            [('Enter',), ('Alloc', 0, 'PCollection'), ('Use', 0), ('Exit',)], 'control')
     # ---- claim guard
     add('claim.alloc.reset.escape', '    let mut bump: Bump = Bump::new();\n    let x = { let c = bump.claim(); c.alloc(5u64) };\n    bump.reset();\n    consume(&x);',
         [('Alloc', 0, 'PClaim'), ('Rewind', 'WReset'), ('Use', 0)], 'escape')
